@@ -47,12 +47,13 @@ def step (ops : BufOps β) (mk : Option β) (sizeMeta : Nat) (split : Bool)
         let keep := keepDomain (k ≠ "0") names
         let fresh : Stream β := { buf := b0, pipe := [], weof := false, closed := false }
         let hosts := names.toArray.map fun nm => ({ name := nm, out := fresh, err := fresh, rc := 0 } : Host β)
-        (some { cfg := { labels := l ≠ "0", keep := keep, tailSplit := split }, hosts := hosts },
+        (some { cfg := { labels := l ≠ "0", keep := keep, tailSplit := split,
+                         rcSkipDigit := rcSkipDigitOfCode, rcEveryLine := rcEveryLineOfCode }, hosts := hosts },
          s!"ok {if keep then 1 else 0} {sizeMeta}")
     | _, _, _ => (st, "bad-op")
   | ["xrc", hx] =>
     match Hex.decode hx with
-    | some b => let (r, c) := extractRc b; (st, s!"{r} {Hex.encode c}")
+    | some b => let (r, c) := extractRc rcSkipDigitOfCode b; (st, s!"{r} {Hex.encode c}")
     | none => (st, "bad-op")
   | op :: i :: rest =>
     match st, i.toNat? with
